@@ -203,7 +203,7 @@ struct Stats {
     builds: AtomicU64,
 }
 
-fn new_session(lts: &Lts, o: &WalkOpts, s: &Snap, rng: &mut StdRng) -> Session {
+pub fn new_session(lts: &Lts, o: &WalkOpts, s: &Snap, rng: &mut StdRng) -> Session {
     let mut sess = Session::new(&o.cfg, &o.names, o.b, &lts.universe);
     sess.light = o.light;
     let nl = sess.w.layers.len();
